@@ -228,6 +228,17 @@ Section Names.
       bind (compile f v) (fun a => ret (a ++ store_res rs))).
   Proof. reflexivity. Qed.
 
+  Lemma compile_NAssign_op f name o v : is_compound o = true ->
+    compile (S f) (NAssign name (op_text o ++ [61%N]) v) =
+    bind (resolve_cur name) (fun rs =>
+      if sy_const (rs_sym rs) then fail (EConstAssign name) else
+      bind (compile f v) (fun a => ret (load_res rs ++ a ++ I (op_code o) ++ store_res rs))).
+  Proof. destruct o; try discriminate; reflexivity. Qed.
+  Lemma compile_NPostfix f name (up : bool) : compile (S f) (NPostfix name (if up then [43; 43]%N else [45; 45]%N)) =
+    bind (resolve_cur name) (fun rs => bind (constant (KInt (if up then 1 else -1))) (fun k =>
+      ret (load_res rs ++ I [opLoadConst; k; opBinaryOp; bAdd] ++ store_res rs))).
+  Proof. destruct up; reflexivity. Qed.
+
   (* the statement loop of compileProgram and of compileBlock *)
   Definition cs_loop (fuel : nat) : list node -> M (list slot) :=
     fix cs (l : list node) : M (list slot) :=
@@ -357,7 +368,7 @@ Section Names.
   Proof.
     induction f as [f IH] using lt_wf_ind.
     intros s k tabs t ks loops top lp Hh Hk Hwf Htop Hlp Hg Ht.
-    destruct s as [e|i e|e|c tb eb|c tb|c b| |].
+    destruct s as [e|i e|i o e|i up|e|c tb eb|c tb|c b| |].
     - (* x := e *)
       cbn [embed_stmt stmt_code next_k wf_stmt sheight] in *.
       apply andb_true_iff in Hwf. destruct Hwf as [Hto Hwf]. rewrite (Htop Hto) in *.
@@ -380,6 +391,23 @@ Section Names.
       rewrite (compile_exp k tabs t ks loops e f Hg Hk Ht Hwf Hh).
       destruct (cexp (length ks) e) as [c kk]. cbn [fst snd].
       unfold ret, store_res. cbn [rs_scope rs_sym sym_of sy_index]. rewrite I_app. reflexivity.
+    - (* x += e *)
+      cbn [embed_stmt stmt_code next_k wf_stmt sheight] in *.
+      apply andb_true_iff in Hwf. destruct Hwf as [Hwf Ho]. apply andb_true_iff in Hwf. destruct Hwf as [Hi Hwf]. apply Nat.ltb_lt in Hi.
+      exists tabs. split; [|split; [exact Hg|apply ext_refl]].
+      rewrite (compile_NAssign_op f _ o _ Ho). unfold bind at 1.
+      rewrite (resolve_good k tabs t ks loops i Hg Hk Ht Hi).
+      cbn [rs_sym sym_of sy_const]. unfold bind.
+      rewrite (compile_exp k tabs t ks loops e f Hg Hk Ht Hwf Hh).
+      destruct (cexp (length ks) e) as [c kk]. cbn [fst snd].
+      unfold ret, store_res, load_res. cbn [rs_scope rs_sym sym_of sy_index]. rewrite <- !I_app. reflexivity.
+    - (* x++ / x-- *)
+      cbn [embed_stmt stmt_code next_k wf_stmt sheight fst snd] in *. apply Nat.ltb_lt in Hwf.
+      exists tabs. split; [|split; [exact Hg|apply ext_refl]].
+      rewrite compile_NPostfix. unfold bind at 1.
+      rewrite (resolve_good k tabs t ks loops i Hg Hk Ht Hwf).
+      unfold bind. rewrite (constant_spec _ (mkst tabs t ks loops) (mw t ks loops) [] eq_refl).
+      unfold ret, store_res, load_res. cbn [rs_scope rs_sym sym_of sy_index mw w_consts]. rewrite <- !I_app. reflexivity.
     - (* e *)
       cbn [embed_stmt stmt_code next_k wf_stmt sheight] in *.
       exists tabs. split; [|split; [exact Hg|apply ext_refl]].
@@ -454,7 +482,7 @@ Section Names.
   Proof.
     unfold collect_decls. induction l as [|s r IH]; intros k; [reflexivity|].
     rewrite embed_stmts_cons.
-    destruct s as [e|i e|e|c t e|c t|c b| |]; cbn [embed_stmt]; try apply IH.
+    destruct s as [e|i e|i o e|i up|e|c t e|c t|c b| |]; cbn [embed_stmt]; try apply IH.
     destruct e; cbn [embed]; apply IH.
   Qed.
 
